@@ -1,6 +1,6 @@
 #!/bin/bash
 cd /verif
 run() { ./check $1 --tier quick > /tmp/all_$1.log 2>&1; echo "$1 exit=$? $(grep -v '^KNOWN' /tmp/all_$1.log | tail -n 1)"; }
-for grp in "C01 C02 C03 C04" "C05 C06 C07 C08" "C09 C10 C11 C12" "C14 C15 C16 C18" "C19 C20 C13"; do
+for grp in "C01 C02 C03 C04" "C05 C06 C07 C08" "C09 C10 C11 C12" "C14 C15 C16 C18" "C19 C20 C13" "C17"; do
   for c in $grp; do run $c & done; wait
 done
